@@ -23,7 +23,37 @@ import (
 //
 // A correct victim stays locked on Y. What it does is judged by the ordinary
 // oracles (I2-I5, agreement); the script asserts nothing itself.
+//
+// Two more scripts use the same machinery (added after seeded changes C01-9
+// and C01-8, which the first script and the random schedules did not reach):
+//
+// "relock" (victim = the honest proposer of round r0+2):
+//
+//	round r0:   only the victim sees the polka for the proposed block B, locks
+//	            it and precommits it (the adversary votes nil, every other
+//	            correct node misses one prevote); no commit;
+//	round r0+1: the unlocked nodes prevote a new block B1, the victim prevotes
+//	            B; the adversary shows nil to the others and keeps its prevote
+//	            for B1 back: a polka for B1 exists that nobody has seen;
+//	round r0+2: the victim proposes its locked block again, everybody prevotes
+//	            it, again only the victim sees the polka: it RE-locks B (its
+//	            lock now dates from round r0+2) and precommits it; no commit;
+//	later:      the adversary's round-(r0+1) prevote for B1 reaches the victim:
+//	            a proof-of-lock for another block that is NEWER than the
+//	            victim's first lock and OLDER than its latest one.
+//
+// "round-skip" (victim = a lagging node):
+//
+//	round r0:   the other two correct nodes see the polka for B, lock and
+//	            precommit it; the victim misses one prevote, precommits nil
+//	            and then receives no precommit at all, so it stays in round r0
+//	            holding the complete block B;
+//	round r0+1: the locked nodes and the adversary prevote B; these prevotes
+//	            reach the victim while it is still in round r0: +2/3 prevotes
+//	            for one block in a round ahead of the node.
 type starve struct {
+	script   string         // stale-pol | relock | round-skip
+	b1       *types.BlockID // relock: what the unlocked nodes prevoted in round r0+1
 	H        uint64
 	r0       int
 	victim   int
@@ -38,6 +68,31 @@ func (cl *Cluster) initStarve(b *byzActor) {
 	h := cl.honest()
 	s := &starve{H: uint64(t.Range(1, 2)), r0: t.Int(2), victim: h[t.Int(len(h))].idx, withheld: map[int]string{}}
 	s.releaseR = s.r0 + 2 + t.Int(2)
+	s.script = []string{"stale-pol", "relock", "round-skip"}[t.Int(3)]
+	if s.script == "relock" {
+		// the victim has to be the proposer of round r0+2 (it proposes its locked
+		// block again): read the rotation of the first height off a node
+		s.H = 1
+		s.releaseR = s.r0 + 3 + t.Int(2)
+		s.victim = -1
+		for try := 0; try < 2 && s.victim < 0; try++ {
+			vs := h[0].roundState().Validators.Copy()
+			vs.IncrementAccum(s.r0 + 2)
+			for _, n := range h {
+				if bytesEqual(vs.GetProposer().Address, n.key.Address()) {
+					s.victim = n.idx
+				}
+			}
+			if s.victim < 0 {
+				s.r0++ // the adversary's own turn: shift the script by one round
+				s.releaseR++
+			}
+		}
+		if s.victim < 0 {
+			s.script, s.victim = "stale-pol", h[0].idx
+		}
+	}
+	cl.c.Probe("adversary-script/" + s.script)
 	for i, n := range h {
 		s.withheld[n.idx] = hexOf(h[(i+1+t.Int(len(h)-1))%len(h)].key.Address())
 		if s.withheld[n.idx] == hexOf(n.key.Address()) {
@@ -54,6 +109,9 @@ func (s *starve) intercept(cl *Cluster, to int, msg cs.ConsensusMessage) bool {
 		return false
 	}
 	v := vm.Vote
+	if s.script == "relock" || s.script == "round-skip" {
+		return s.intercept2(cl, to, v)
+	}
 	if v.Height != s.H || v.Type != types.VoteTypePrevote || v.BlockID.IsZero() || cl.isByz(to) {
 		return false
 	}
@@ -76,12 +134,169 @@ func (s *starve) intercept(cl *Cluster, to int, msg cs.ConsensusMessage) bool {
 	return false
 }
 
+// intercept2: delivery rules of the relock and round-skip scripts.
+func (s *starve) intercept2(cl *Cluster, to int, v *types.Vote) bool {
+	if v.Height != s.H || cl.isByz(to) {
+		return false
+	}
+	from := hexOf(v.ValidatorAddress)
+	victimAddr := hexOf(cl.nodes[s.victim].key.Address())
+	blockPrevote := v.Type == types.VoteTypePrevote && !v.BlockID.IsZero()
+	switch s.script {
+	case "relock":
+		if blockPrevote && v.Round == s.r0+1 && from != victimAddr && s.b1 == nil && !cl.isByzAddr(from) {
+			id := v.BlockID
+			s.b1 = &id
+		}
+		// the adversary's nil prevote of round r0+1 must not reach the victim by
+		// any path (the other nodes' gossip would pass it on): its prevote for
+		// B1 would then be refused as a conflicting vote
+		if v.Type == types.VoteTypePrevote && v.Round == s.r0+1 && to == s.victim && v.BlockID.IsZero() && cl.isByzAddr(from) {
+			return true
+		}
+		// lock rounds: only the victim sees the polka
+		if blockPrevote && (v.Round == s.r0 || v.Round == s.r0+2) && to != s.victim && s.withheld[to] == from {
+			cl.c.Fault("adversary-withholds-prevote")
+			return true
+		}
+	case "round-skip":
+		if to != s.victim {
+			return false
+		}
+		// the victim misses one prevote for the block in round r0 ...
+		if blockPrevote && v.Round == s.r0 && s.withheld[to] == from {
+			cl.c.Fault("adversary-withholds-prevote")
+			return true
+		}
+		// ... and every precommit of that round: it stays behind in round r0
+		if v.Type == types.VoteTypePrecommit && v.Round == s.r0 {
+			cl.c.Fault("adversary-withholds-precommit")
+			return true
+		}
+	}
+	return false
+}
+
+func (cl *Cluster) isByzAddr(hexAddr string) bool {
+	for _, b := range cl.byz {
+		if hexOf(b.n.key.Address()) == hexAddr {
+			return true
+		}
+	}
+	return false
+}
+
+// starveAct2 is the adversary's periodic action in the relock and round-skip scripts.
+func (b *byzActor) starveAct2() {
+	cl := b.cl
+	s := cl.adv
+	victim := cl.nodes[s.victim]
+	for _, h := range cl.honest() {
+		if !h.alive || h.failed {
+			continue
+		}
+		rs := h.roundState()
+		if rs.Height != s.H {
+			continue
+		}
+		idx, _ := rs.Validators.GetByAddress(b.n.key.Address())
+		if idx < 0 {
+			continue
+		}
+		size := rs.Validators.Size()
+		// a functioning proposer at its turns (the same block for everybody)
+		if bytesEqual(rs.Validators.GetProposer().Address, b.n.key.Address()) && rs.Proposal == nil && rs.Step <= 3 {
+			key := keyOf(h.idx, rs.Height, rs.Round, 0, "starve-prop")
+			if !b.done[key] {
+				b.done[key] = true
+				if blk, _ := b.buildBlock(h, rs, 7+rs.Round); blk != nil {
+					b.sendBlock(h, rs.Height, rs.Round, blk, "adversary-block")
+				}
+			}
+		}
+		last := s.r0 + 2
+		if s.script == "round-skip" {
+			last = s.r0
+		}
+		for r := s.r0; r <= last && r <= rs.Round; r++ {
+			for _, typ := range []byte{types.VoteTypePrevote, types.VoteTypePrecommit} {
+				if s.script == "relock" && r == s.r0+1 && typ == types.VoteTypePrevote && h.idx == s.victim {
+					continue // its round-(r0+1) prevote for the victim is the one for B1, later
+				}
+				if s.script == "round-skip" && typ == types.VoteTypePrecommit && h.idx == s.victim {
+					continue // the victim sees no precommit of round r0
+				}
+				key := keyOf(h.idx, rs.Height, r, typ, "starve-nil")
+				if b.done[key] {
+					continue
+				}
+				b.done[key] = true
+				if v := b.signVote(rs.Height, r, typ, types.BlockID{}, size, idx); v != nil {
+					cl.c.Fault("adversary-nil-vote")
+					cl.send(b.n.idx, h.idx, voteMsg(v), "adversary-nil")
+				}
+			}
+		}
+		if s.script == "round-skip" && rs.Round >= s.r0+1 && h.idx != s.victim && rs.LockedBlock != nil && rs.LockedRound == s.r0 {
+			// round r0+1: prevote what the locked nodes prevote, towards everybody
+			id := types.BlockID{Hash: rs.LockedBlock.Hash(), PartsHeader: rs.LockedBlockParts.Header()}
+			for _, d := range cl.honest() {
+				key := keyOf(d.idx, rs.Height, s.r0+1, types.VoteTypePrevote, "skip-block")
+				if b.done[key] || !d.alive || d.failed {
+					continue
+				}
+				b.done[key] = true
+				if v := b.signVote(rs.Height, s.r0+1, types.VoteTypePrevote, id, size, idx); v != nil {
+					if d.idx == s.victim {
+						if vrs := d.roundState(); vrs.Height == s.H && vrs.Round == s.r0 {
+							cl.c.Probe("round-skip-script/polka-ahead-offered-to-lagging-victim")
+							if vrs.ProposalBlock != nil {
+								cl.c.Probe("round-skip-script/victim-holds-stale-proposal-block")
+							}
+						}
+					}
+					cl.c.Fault("adversary-block-vote")
+					cl.send(b.n.idx, d.idx, voteMsg(v), "adversary-skip")
+				}
+			}
+		}
+	}
+	if s.released || !victim.alive || victim.failed {
+		return
+	}
+	rs := victim.roundState()
+	if rs.Height > s.H {
+		s.released = true
+		return
+	}
+	if s.script == "relock" && rs.Height == s.H && rs.Round >= s.releaseR && s.b1 != nil {
+		s.released = true
+		idx, _ := rs.Validators.GetByAddress(b.n.key.Address())
+		if idx < 0 {
+			return
+		}
+		if rs.LockedBlock != nil && rs.LockedRound == s.r0+2 {
+			cl.c.Probe("relock-script/older-pol-released-to-relocked-victim")
+		} else if rs.LockedBlock != nil {
+			cl.c.Probe("relock-script/released-to-locked-victim-without-relock")
+		}
+		if v := b.signVote(rs.Height, s.r0+1, types.VoteTypePrevote, *s.b1, rs.Validators.Size(), idx); v != nil {
+			cl.c.Fault("adversary-releases-withheld-prevote")
+			cl.send(b.n.idx, s.victim, voteMsg(v), "adversary-release")
+		}
+	}
+}
+
 // starveAct is the adversary's periodic action.
 func (b *byzActor) starveAct() {
 	cl := b.cl
 	s := cl.adv
 	defer cl.push(&event{at: cl.now + time.Duration(10+cl.sched.Int(30))*time.Millisecond, kind: evByz, fn: b.starveAct})
 	if s == nil {
+		return
+	}
+	if s.script == "relock" || s.script == "round-skip" {
+		b.starveAct2()
 		return
 	}
 	for _, h := range cl.honest() {
